@@ -59,13 +59,21 @@ def _task(t):
     rng = random.Random(seed)
     out = []
     base = progs.load_repo_programs(core.REPO) if kind == 'mutate' else None
-    for _ in range(n):
+    sweep = []
+    if kind == 'sweep':
+        # every template once in the nested position and once in the main program at -O2 -g (the configuration with the most
+        # passes), slice `n` of 8
+        sweep = [(tm, pos) for tm in stmtfuzz.TEMPLATES[n::8] for pos in (0.7, 0.1)]
+    for k in range(len(sweep) if kind == 'sweep' else n):
         o = rng.randrange(3)
         g = rng.random() < 0.5
-        if kind == 'stmt':
+        if kind in ('stmt', 'sweep'):
             tmpl = rng.choice(stmtfuzz.TEMPLATES)
-            st_ = stmtfuzz.fill(rng, tmpl)
             w = rng.random()
+            if kind == 'sweep':
+                tmpl, w = sweep[k]
+                o, g = 2, True
+            st_ = stmtfuzz.fill(rng, tmpl)
             if w < 0.6:
                 src = stmtfuzz.HEAD + st_ + stmtfuzz.TAIL
             elif w < 0.8:
@@ -81,7 +89,7 @@ def _task(t):
             src = stmtfuzz.mutate(rng, src0)
             label = None
         r = classify(src, o, g)
-        out.append((r, src if r[0] in ('internal', 'nopos') else None, label, o, g, tmpl if kind == 'stmt' else None))
+        out.append((r, src if r[0] in ('internal', 'nopos') else None, label, o, g, tmpl if kind in ('stmt', 'sweep') else None))
     return out
 
 
@@ -90,7 +98,8 @@ def run(chk):
     chk.regen_and_build(LEAN_MODULE)
     chk.audit(LEAN_MODULE, REQUIRED)
     tasks = [(rng.randrange(1 << 30), 60, 'stmt') for _ in range(chk.n(24, 400))] + \
-            [(rng.randrange(1 << 30), 30, 'mutate') for _ in range(chk.n(12, 200))]
+            [(rng.randrange(1 << 30), 30, 'mutate') for _ in range(chk.n(12, 200))] + \
+            [(rng.randrange(1 << 30), k, 'sweep') for k in range(8)]
     res = real.pmap(task, tasks)
     verdicts = {}
     reqs, exp, meta = [], [], []
@@ -105,6 +114,9 @@ def run(chk):
                 templates_hit.add(tmpl)
             if r[0] == 'internal':
                 sig = f'C06 internal {r[1]} in {r[2]}'
+                if r[2] in ('assembled', 'gen_code_for_node'):
+                    # generic sites: the message tells the defects apart
+                    sig += ' (' + r[3].strip('"').replace('<', '').replace('>', '').split(' dimrc')[0][:60] + ')'
                 if sig not in best or len(label or src) < len(best[sig][0]):
                     best[sig] = (label or src, r, src, o, g)
             elif r[0] == 'nopos':
